@@ -78,6 +78,12 @@ type SessionWindow struct {
 type sessionInfo struct {
 	session   *session
 	closeTime time.Time // session end + allowedLateness
+	// firing is true while the session's first result is being handed to the
+	// output channel (done with the lock released). A late event absorbed
+	// meanwhile only sets pendingLate; its update is emitted right after the first
+	// result, so it cannot overtake it.
+	firing      bool
+	pendingLate bool
 }
 
 // session stores data and state for a session
@@ -455,6 +461,7 @@ func (sw *SessionWindow) checkExpiredSessions() {
 	sw.mu.Unlock()
 
 	sw.sendResults(resultsToSend, callback)
+	sw.flushPendingLateUpdates()
 }
 
 func (sw *SessionWindow) checkAndTriggerSessions(watermarkTime time.Time) {
@@ -465,6 +472,31 @@ func (sw *SessionWindow) checkAndTriggerSessions(watermarkTime time.Time) {
 	sw.mu.Unlock()
 
 	sw.sendResults(resultsToSend, callback)
+	sw.flushPendingLateUpdates()
+}
+
+// flushPendingLateUpdates runs after the first results of newly expired sessions
+// have been sent: it marks them delivered and emits the updates of late events
+// that were absorbed while those results were on their way out.
+func (sw *SessionWindow) flushPendingLateUpdates() {
+	if sw.config.AllowedLateness <= 0 {
+		return
+	}
+	sw.mu.Lock()
+	defer sw.mu.Unlock()
+	var pending []*sessionInfo
+	for _, info := range sw.triggeredSessions {
+		if info.firing {
+			info.firing = false
+			if info.pendingLate {
+				info.pendingLate = false
+				pending = append(pending, info)
+			}
+		}
+	}
+	for _, info := range pending {
+		sw.triggerLateUpdateLocked(info.session)
+	}
 }
 
 func (sw *SessionWindow) collectExpiredSessions(currentTime time.Time) [][]types.Row {
@@ -493,6 +525,7 @@ func (sw *SessionWindow) collectExpiredSessions(currentTime time.Time) [][]types
 					sw.triggeredSessions[key] = &sessionInfo{
 						session:   s,
 						closeTime: closeTime,
+						firing:    true,
 					}
 				}
 			}
@@ -687,6 +720,12 @@ func (sw *SessionWindow) handleLateData(row types.Row) bool {
 	// window_start/window_end are read from its rows).
 	row.Slot = info.session.slot
 	info.session.data = append(info.session.data, row)
+	if info.firing {
+		// the session's first result is still on its way out: the expiry goroutine
+		// emits the update right after it
+		info.pendingLate = true
+		return true
+	}
 	sw.triggerLateUpdateLocked(info.session)
 	return true
 }
